@@ -662,6 +662,86 @@ func (env *rEnv) call(n *rNode) Value {
 			}
 			return sym(IntLit(int64(k)))
 		}
+	case "stmtText":
+		// stmtText(i): the text of the i-th SQL statement issued on this path
+		if idx, ok := constIndex(env.eval(n.Args[0])); ok {
+			k := 0
+			for _, ev := range env.post.trace {
+				if ev.Kind == "sql" {
+					if k == idx {
+						return sym(e.strLit(ev.Text))
+					}
+					k++
+				}
+			}
+			return env.fail("no SQL statement %d on this path", idx)
+		}
+	case "cteOK", "cteRest", "cteWhere", "cteCol", "cteCols":
+		// the statement text s is `WITH _keyspace AS (SELECT ... FROM documents WHERE ...) <spliced string>`
+		text, ok := e.reverseStr(argT(0).S)
+		if !ok {
+			if n.Text == "cteOK" {
+				return sym(TFalse)
+			}
+			return env.fail("%s: the text is not a literal with holes", n.Text)
+		}
+		stmt, err := parseSQL(text)
+		var sub *SQLStmt
+		good := err == nil && stmt.Kind == "with" && len(stmt.WithOrder) == 1 && stmt.WithOrder[0] == "_keyspace"
+		var restHole Term
+		if good {
+			sub = stmt.With["_keyspace"]
+			good = strings.EqualFold(sub.Table, "documents") && len(sub.Join) == 0 && sub.Limit == nil && sub.Where != nil
+			var hn int
+			if c, _ := fmt.Sscanf(stmt.Rest, "#%d", &hn); c == 1 && stmt.Rest == fmt.Sprintf("#%d", hn) && hn < len(e.holes) && e.holes[hn].Sort == SStr {
+				restHole = e.holes[hn]
+			} else {
+				good = false
+			}
+		}
+		switch n.Text {
+		case "cteOK":
+			return sym(BoolLit(good))
+		case "cteRest":
+			if !good {
+				return env.fail("cteRest: not a keyspace statement")
+			}
+			return sym(restHole)
+		case "cteCols":
+			if !good {
+				return env.fail("cteCols: not a keyspace statement")
+			}
+			return sym(IntLit(int64(len(sub.Sel))))
+		case "cteWhere":
+			if !good {
+				return env.fail("cteWhere: not a keyspace statement")
+			}
+			c := &evalCtx{e: e, st: env.post, params: &sqlParams{named: map[string]SQLVal{}}, table: "documents"}
+			id := argT(1)
+			c.row, c.id = Select(env.post.g.Docs, id, SRow), id
+			return sym(And(rowPresent(c.row), c.where(sub.Where)))
+		case "cteCol":
+			if !good || n.Args[1].Op != "str" {
+				return env.fail("cteCol: not a keyspace statement")
+			}
+			c := &evalCtx{e: e, st: env.post, params: &sqlParams{named: map[string]SQLVal{}}, table: "documents"}
+			id := argT(2)
+			c.row, c.id = Select(env.post.g.Docs, id, SRow), id
+			for _, it := range sub.Sel {
+				name := it.Alias
+				if name == "" && it.Expr != nil && it.Expr.Op == "col" {
+					name = it.Expr.Name
+				}
+				if !it.Star && strings.EqualFold(name, n.Args[1].Text) {
+					v := c.eval(it.Expr)
+					if v.Any {
+						return env.fail("cteCol: column %s not evaluable", name)
+					}
+					return sym(v.T)
+				}
+			}
+			return env.fail("cteCol: no column %s", n.Args[1].Text)
+		}
 	case "cursorWhere":
 		// cursorWhere(i, id): the WHERE clause of the i-th SELECT cursor opened on this path holds for row id
 		if idx, ok := constIndex(env.eval(n.Args[0])); ok {
